@@ -236,6 +236,23 @@ func c01eIf(c *Ctx, splitFn, sbe *ssa.Function) {
 
 	elseID := ""
 	elifListTerm := ""
+	// Two accepted shapes. (A) one condition call per case: three for the if condition
+	// (elif present / else only / neither) and three for the elif conditions (chain / last
+	// with else / last without). (B) one running failure target: initialised to the else
+	// chunk or the return id, threaded through a reverse loop over the elif conditions
+	// (each call fails into the value left by the previous iteration and leaves its own
+	// entry id), and finally used by the if condition.
+	tCons, tElif := 0, 0
+	for _, call := range callsToIn(fn, sbe) {
+		e := c.term(fn, call.Common().Args[0])
+		if e == "$0.Consequence.Expression" {
+			tCons++
+		} else if strings.HasPrefix(e, "$0.ElifConsequences[") {
+			tElif++
+		}
+	}
+	running := tCons == 1 && tElif == 1
+	var runningPhi *ssa.Phi
 	// classify the condition calls
 	nCons, nElif := 0, 0
 	var entryVals []ssa.Value
@@ -273,6 +290,13 @@ func c01eIf(c *Ctx, splitFn, sbe *ssa.Function) {
 			key := name + "/if-condition"
 			c.Check(succ == cons.id, key+"/success", pos, "if condition true -> consequence body", "if condition success goes to "+pretty(succ)+", expected the consequence chunk "+pretty(cons.id))
 			switch {
+			case running:
+				h, isPhi := a[3].(*ssa.Phi)
+				ok := isPhi && isLoopHeader(h.Block()) && !loopBody(h.Block())[call.Block()] && h.Block().Dominates(call.Block()) && (runningPhi == nil || runningPhi == h)
+				if ok {
+					runningPhi = h
+				}
+				c.Check(ok, key+"/failure(running)", pos, "if condition false -> the running failure target as left by the elif loop (entry of the first elif, or the else body / return id when there is none)", "the if condition's failure target "+pretty(fail)+" is not the value carried by the elif wiring loop")
 			case hasElif:
 				// failure = entry of the first elif condition = last value computed by the reverse loop
 				var leaves []ssa.Value
@@ -311,6 +335,62 @@ func c01eIf(c *Ctx, splitFn, sbe *ssa.Function) {
 				elifListTerm = strings.TrimSuffix(succ, "["+k+"].id")
 			}
 			switch {
+			case running:
+				h, isPhi := a[3].(*ssa.Phi)
+				ok := isPhi && isLoopHeader(h.Block()) && loopBody(h.Block())[call.Block()] && (runningPhi == nil || runningPhi == h)
+				why := "the elif condition's failure target " + pretty(fail) + " is not a value carried around the elif wiring loop"
+				if ok {
+					runningPhi = h
+					for i, e := range h.Edges {
+						pred := h.Block().Preds[i]
+						if h.Block().Dominates(pred) {
+							// carried value: the entry id this very call returned
+							ex, isEx := e.(*ssa.Extract)
+							if !isEx || ex.Index != 2 || ex.Tuple != call.(ssa.Value) {
+								ok = false
+								why = "the value carried to the next (lower-index) elif is " + pretty(c.term(fn, e)) + ", expected the entry id returned for this elif condition"
+							}
+							continue
+						}
+						// initial value: else chunk id if there is an else block, return id otherwise
+						for _, gl := range c.guardedLeaves(fn, e, nil) {
+							t := c.term(fn, gl.v)
+							nonNil, isNil := false, false
+							for _, l := range gl.must {
+								if strings.HasSuffix(l, " == nil)") && strings.Contains(l, "elseChunk") {
+									if l[0] == '-' {
+										nonNil = true
+									} else {
+										isNil = true
+									}
+								}
+							}
+							switch {
+							case strings.HasSuffix(t, ".id") && strings.Contains(t, "elseChunk") && nonNil:
+							case t == splitR && isNil:
+							default:
+								ok = false
+								why = "the last elif condition can fail into " + pretty(t) + " under " + fmt.Sprint(gl.must) + "; expected the else chunk id when there is an else block and the return id otherwise"
+							}
+						}
+					}
+				}
+				c.Check(ok, key+"/failure(running)", pos, "last elif false -> else body or return id; elif k false -> entry of elif k+1 (left by the previous iteration)", why)
+				if ph, isPhi := rootIndexPhi(a[0]); isPhi {
+					down, startsLast := false, false
+					for _, e := range ph.Edges {
+						et := c.term(fn, e)
+						if strings.HasSuffix(et, "-1") && strings.HasPrefix(et, "phi(") {
+							down = true
+						}
+						if strings.HasPrefix(et, "builtin:len(") && strings.HasSuffix(et, ")-1") {
+							startsLast = true
+						}
+					}
+					c.Check(down && startsLast, key+"/reverse-order", pos, "elif conditions are wired from the last one backwards", "the elif wiring loop does not run from len-1 downwards, so 'entry of the next elif' is not available when needed")
+				} else {
+					c.Unk(key+"/reverse-order", pos, "cannot find the loop index of the elif wiring loop")
+				}
 			case lastElif && elseNonNil:
 				c.Check(strings.HasSuffix(fail, ".id") && strings.Contains(fail, "elseChunk"), key+"/failure(last,else)", pos, "last elif false -> else body", "last elif failure target is "+pretty(fail)+", expected the else chunk id")
 			case lastElif && elseNil:
@@ -359,7 +439,11 @@ func c01eIf(c *Ctx, splitFn, sbe *ssa.Function) {
 			c.Bad(name+"/condition-call/expr", pos, "condition call on unexpected expression "+pretty(expr))
 		}
 	}
-	c.Check(nCons == 3 && nElif == 3, name+"/condition-call-count", c.W.FuncPos(fn), "three wirings of the if condition (elif / else / none) and three of the elif conditions (chain / else / none)", fmt.Sprintf("found %d if-condition and %d elif-condition wirings, expected 3 and 3", nCons, nElif))
+	if running {
+		c.Check(runningPhi != nil, name+"/condition-call-count", c.W.FuncPos(fn), "one wiring of the if condition and one of the elif conditions, sharing a running failure target", "the if condition and the elif conditions do not share one running failure target")
+	} else {
+		c.Check(nCons == 3 && nElif == 3, name+"/condition-call-count", c.W.FuncPos(fn), "three wirings of the if condition (elif / else / none) and three of the elif conditions (chain / else / none)", fmt.Sprintf("found %d if-condition and %d elif-condition wirings, expected 3 and 3 (or 1 and 1 sharing a running failure target)", nCons, nElif))
+	}
 	_ = elseID
 	_ = elifListTerm
 	// returned jump = entry of the if condition
@@ -377,7 +461,7 @@ func c01eIf(c *Ctx, splitFn, sbe *ssa.Function) {
 					if st, ok := r2.(*ssa.Store); ok && st.Addr == ssa.Value(fa) {
 						var leaves []ssa.Value
 						phiLeaves(st.Val, map[ssa.Value]bool{}, &leaves)
-						okEntry = len(leaves) == 3
+						okEntry = len(leaves) == 3 || (running && len(leaves) == 1)
 						for _, lf := range leaves {
 							ex, isEx := lf.(*ssa.Extract)
 							if !isEx || ex.Index != 2 {
@@ -533,3 +617,23 @@ var loopTagRe = regexpMust(`!L\d+`)
 
 // stripLoopTags removes loop-header version tags (the value at the start of the iteration).
 func stripLoopTags(s string) string { return loopTagRe.ReplaceAllString(s, "") }
+
+type guardedLeaf struct {
+	v    ssa.Value
+	must []string
+}
+
+// guardedLeaves: the non-phi values merged into v (merges at loop heads are leaves), each
+// with the literals that hold on the edges through which it flows.
+func (c *Ctx) guardedLeaves(fn *ssa.Function, v ssa.Value, must []string) []guardedLeaf {
+	p, ok := v.(*ssa.Phi)
+	if !ok || isLoopHeader(p.Block()) || len(must) > 64 {
+		return []guardedLeaf{{v, must}}
+	}
+	var out []guardedLeaf
+	for i, e := range p.Edges {
+		m := append(append([]string{}, must...), c.edgeMust(fn, p.Block().Preds[i], p.Block())...)
+		out = append(out, c.guardedLeaves(fn, e, m)...)
+	}
+	return out
+}
